@@ -108,6 +108,13 @@ CLAIMED = {
             "and wrappers that do not compile are violations.",
             "NULL strings / NULL crystals are not expressible through the wrappers; run on the Kissel-regenerated configuration so both outcomes occur",
             "DESIGN.md 2/C18"),
+    "C19": ("generated differential testing: one argument stream (the C03 sweep) executed by the C interpreter and by a Java reflection harness over the Java sources compiled offline, both data configurations",
+            "For every function that exists as C prototype and as public static Java method the same generated argument tuples are executed on both "
+            "sides: same outcome class (value vs exception) and values within 1e-9 (crystal-derived quantities 2e-6: the C built-in crystals are "
+            "single precision); objects compared field by field. The Java data file is dumped from the same data directory by pr_data_java.c.",
+            "arguments within 1e-6 of an absorption edge / table end are not compared (Java holds full-precision tables, C the %.10E text, so the "
+            "side of a discontinuity is round-off of the build); exception type/message not judged; javac against a stub of commons-math Complex",
+            "DESIGN.md 2/C19"),
     "C20": ("exhaustive differential enumeration: per-language lexers (Fortran, Pascal, Cython, Java, IDL, C++, SWIG) vs a C header lexer for ~1500 constants x 7 files and all prototypes; exported symbols via nm; version strings",
             "Every constant, macro family member, wrapped prototype (name, arity, argument kinds), exported symbol and version string is compared; "
             "the space is finite and enumerated completely (22k comparisons). Lexers were validated by 72 single-token mutations of the binding files.",
